@@ -174,7 +174,8 @@ class Run:
 
     def value_of(self, tag):
         if tag in self.answers:
-            return self.answers[tag]
+            a_ = self.answers[tag]
+            return a_() if callable(a_) else a_
         return ok(Tok("value-of", tag))
 
     def intercept(self, mc, c, a, tt, g):
@@ -219,7 +220,8 @@ class Run:
         if c == w.epc.name and w.epc.name not in self.follow:
             self.events.append(("eval-tail-call",) + tuple(a))
             if self.epc_answers:
-                return self.epc_answers.pop(0)
+                a_ = self.epc_answers.pop(0)
+                return a_() if callable(a_) else a_
             return UNKNOWN
         if c.endswith("Rc::strong_count") or c.endswith("Rc::weak_count"):
             return self.rc_count
@@ -229,6 +231,8 @@ class Run:
             if isinstance(a0, Tok) and a0.tag in self.truths:
                 self.events.append(("as_boolean", a0.tag))
                 return self.truths[a0.tag]
+            if isinstance(a0, Enum):
+                return NOT                      # a real value: the crate's own as_boolean decides
             return UNKNOWN
         if c == SCOPE + "new_child":
             fr = Frame(a0)
@@ -522,6 +526,49 @@ def trampoline_table(w):
                                    "arg2": arg2}))
         except (absint.Stuck, absint.Loop) as e:
             rows.append((variant, {"stuck": str(e)}))
+    # `let` in tail position: the pending call's operator evaluates to a closure MADE IN THE FRAME OF THE FINISHED TURN (what
+    # ((lambda (v) body) init) in tail position is); its parameters are bound in a new child of that frame, never in the frame itself
+    # (closures made there earlier keep seeing the old bindings)
+    cenv1, caller = Frame(None, "closure-env-1"), Frame(None, "caller-env")
+    sp1 = w.scheme_procedure(w.formals(["a"]), [], [w.sym("B1"), w.sym("TAILCALL")])
+    sp2 = w.scheme_procedure(w.formals(["a"]), [], [w.sym("C1")])
+    p1 = w.user(sp1, cenv1)
+    arg2 = Tok("arg", "W1")
+    r = Run(w, follow=[w.asp.name])
+    state = {}
+
+    def frame1():
+        fr = [e[1] for e in r.events if e[0] == "new_child"]
+        return fr[0] if fr else Frame(None, "?")
+
+    def p2_():
+        if "p2" not in state:
+            state["p2"] = w.user(sp2, frame1())
+        return state["p2"]
+
+    class _TailLet(dict):
+        def __contains__(self, k):
+            return k == "TAILCALL"
+
+        def __getitem__(self, k):
+            inner = Enum(0, [w.sym("OP2"), [w.sym("X")], frame1()])
+            inner.name = "Ref"
+            tcx = Enum(0, [inner])
+            tcx.name = "TailCall"
+            return ok(tcx)
+    r.tail_answers = _TailLet()
+    r.epc_answers = [lambda: ok([p2_(), [arg2]])]
+    r.answers = {"OP2": lambda: ok(w.procedure_value(p2_())), "X": ok(arg2)}
+    try:
+        res = r.run(w.ap, [p1, [Tok("arg", "V1")], caller])
+        frames = [e for e in r.events if e[0] == "new_child"]
+        defs = [e for e in r.events if e[0] == "define"]
+        rows.append(("closure-made-in-the-finished-frame", {
+            "result": res, "n_frames": len(frames), "second_parent_is_first_frame": len(frames) == 2 and frames[1][2] is frames[0][1],
+            "define_frames": [next((i for i, f in enumerate(frames) if f[1] is e[1]), None) for e in defs],
+            "recursive_applies": len([e for e in r.events if e[0] == "apply"])}))
+    except (absint.Stuck, absint.Loop) as e:
+        rows.append(("closure-made-in-the-finished-frame", {"stuck": str(e)}))
     # the whole path of one tail call with nothing stubbed but the evaluation of the leaves: body = ((OPX ARGX)) in tail position,
     # OPX evaluates to a second procedure.  Operator and operand are evaluated exactly once each (by whichever of the tail
     # evaluator / the trampoline does it), in the frame of the first application; then the callee runs as an ordinary application.
@@ -1149,6 +1196,16 @@ def rule_trampoline(ctx, rule, aspects):
                 continue
             v.row(key, d, [])
             continue
+        if second == "closure-made-in-the-finished-frame":
+            if not (set(aspects) & {"rebind", "frame"}):
+                continue
+            v.row(key, d, [
+                (d["recursive_applies"] == 0, "the trampoline calls apply_procedure recursively for a pending tail call"),
+                (d["n_frames"] == 2 and d["second_parent_is_first_frame"] and d["define_frames"] == [0, 1],
+                 "a tail call to a closure made in the finished turn's frame (a `let` in tail position) binds its parameter in frame(s) %s with "
+                 "%d frame(s) created; expected a new child of that frame for the second turn — binding in the frame itself changes what "
+                 "closures made there earlier see" % (d["define_frames"], d["n_frames"]))])
+            continue
         if second.startswith("self-tail-call"):
             checks = [(d["recursive_applies"] == 0, "the trampoline calls apply_procedure recursively for a pending tail call")]
             if "rebind" in aspects or "frame" in aspects:
@@ -1441,6 +1498,56 @@ def conditional_table(w, f):
     return rows
 
 
+def truthiness_table(w, f):
+    """(if T C A) where T evaluates to a REAL value of every kind — as a compound test and as a plain variable reference — run by f
+    (eval_expression / a tail evaluator) with the crate's own as_boolean followed: which arm runs"""
+    num = dict((n, i) for i, n in w.fb.variants("values::Number"))
+
+    def V(name, *fields):
+        e = w.named(w.val, name, list(fields))
+        e.adt = "values::Value"
+        return e
+    empty = w.named(w.gp, "Empty", [])
+    empty.adt = "parser::pair::GenericPair"
+    kinds = [("#t", V("Boolean", True), True), ("#f", V("Boolean", False), False),
+             ("0", V("Number", w.named(num, "Integer", [0])), True), ("the empty list", V("Pair", empty), True),
+             ("the empty string", V("String", ""), True), ("a symbol", V("Symbol", "false"), True), ("a character", V("Character", 102), True),
+             ("a procedure", w.procedure_value(Tok("procedure", "P")), True)]
+    if "Void" in w.val:
+        kinds.append(("the unspecified value", V("Void"), True))
+    rows = []
+    for label, val, truthy in kinds:
+        for how in ("compound-test", "variable-test"):
+            env = Frame(None, "env")
+            name = "T" if how == "compound-test" else "x"
+            expr = w.cond(w.sym(name), w.sym("C"), w.sym("A"))
+            r = Run(w, answers={name: ok(val)}, lookups={name: some(val)})
+            try:
+                res = r.run(f, [expr, env])
+            except (absint.Stuck, absint.Loop) as e:
+                rows.append(((label, how, truthy), {"stuck": str(e)}))
+                continue
+            arms = [e[1] for e in r.events if e[0] in ("eval", "tail") and e[1] in ("C", "A")]
+            rows.append(((label, how, truthy), {"result": res, "arms": arms}))
+    return rows
+
+
+def rule_truthiness(ctx, rule, f):
+    """only #f counts as false: the consequent runs for every other value, whatever the test expression looks like"""
+    w = tables(ctx.fb())["w"]
+    v = Verdict(ctx, rule, mir_where(f))
+    short = f.name.rsplit("::", 1)[-1]
+    for (label, how, truthy), d in truthiness_table(w, f):
+        key = "%s/%s/%s" % (short, how, label)
+        if "stuck" in d:
+            v.row(key, d, [])
+            continue
+        want = ["C"] if truthy else ["A"]
+        v.row(key, d, [(d["arms"] == want, "(if %s C A) with %s bound / evaluating to %s runs %s, expected %s (only #f counts as false)" % (
+            "x" if how == "variable-test" else "T", "x" if how == "variable-test" else "T", label, d["arms"] or "nothing", want))])
+    return v.decided
+
+
 def rule_conditional(ctx, rule, f):
     w = tables(ctx.fb())["w"]
     v = Verdict(ctx, rule, mir_where(f))
@@ -1504,6 +1611,34 @@ def rule_tail_dispatch(ctx, rule):
             v.row(key, {}, [(evs == [("eval", "EXPR", True)] and contains(res, lambda x: isinstance(x, Tok) and x.tag == "EXPR"),
                              "a %s form in tail position is not evaluated by eval_expression on the same expression and environment with "
                              "that value returned (evaluations %s, result %r)" % (vn, evs, res))])
+    # a call in tail position whatever its operator looks like: a variable, a call, a conditional, a lambda expression with fixed
+    # parameters, with a rest parameter, with both — it is never evaluated on the Rust stack (no eval_expression of the call itself,
+    # no apply_procedure from inside the tail evaluator)
+    ops = [("a variable", lambda: w.sym("OP")), ("a call", lambda: w.call(w.sym("MK"), [w.sym("K")])),
+           ("a conditional", lambda: w.cond(w.sym("T"), w.sym("P1"), w.sym("P2"))),
+           ("a lambda expression with fixed parameters", lambda: w.lam(w.scheme_procedure(w.formals(["x"]), [], [w.sym("LB")]))),
+           ("a lambda expression with a rest parameter", lambda: w.lam(w.scheme_procedure(w.formals([], "args"), [], [w.sym("LB")]))),
+           ("a lambda expression with fixed and rest parameters", lambda: w.lam(w.scheme_procedure(w.formals(["x"], "more"), [], [w.sym("LB")])))]
+    for label, mk in ops:
+        env = Frame(None, "env")
+        expr = w.call(mk(), [w.sym("A1")])
+        r = Run(w, stub_eval_all=True, truths={"T": True})
+        key = "eval_tail_expression/ProcedureCall/operator-is-%s" % label.replace(" ", "-")
+        try:
+            res = r.run(w.ete, [expr, env])
+        except (absint.Stuck, absint.Loop) as ex:
+            v.row(key, {"stuck": str(ex)}, [])
+            continue
+        me = r.describe(expr)
+        on_stack = [x for x in r.events if x[0] == "apply" or (x[0] == "eval" and x[1] == me)]
+        pending = bool(find_enum(res, "TailCall")) or contains(res, lambda x: x is expr[0].fields[0])
+        if not on_stack and not pending:
+            ctx.undecided(rule, key, "a tail call whose operator is %s is neither handed back as a pending call nor evaluated on the Rust stack "
+                                     "(%r): applied in place?" % (label, res), mir_where(w.ete))
+            continue
+        v.row(key, {}, [(not on_stack, "a call in tail position whose operator is %s is evaluated by %s inside the tail evaluator: every "
+                         "iteration of a loop written that way costs Rust stack" % (label, "apply_procedure" if any(x[0] == "apply" for x in on_stack)
+                                                                                     else "eval_expression (a non-tail evaluation of the whole call)"))])
     return v.decided
 
 
